@@ -241,6 +241,7 @@ def run(ctx):
             rep(f"raised {type(ex).__name__}: {ex}"); continue
         judge(ctx, name, l, 5, angles, 0, rep)
         ctx.case((name,), nontrivial=True)
+    core.history_check(ctx, "import numpy as np\nfrom koala import example_graphs as eg, voronization as vz, graph_utils as gu, quasicrystals as qc, phase_diagrams as pdg, hamiltonian as ham\nfrom koala.flux_finder import flux_finder as ff\n\ndef _canon(l):\n    parts = [l.vertices.positions.ravel(), l.edges.indices.ravel().astype(float), l.edges.crossing.ravel().astype(float)]\n    return np.concatenate(parts)\ndef _plaq(l):\n    out = []\n    for p in l.plaquettes:\n        out += [float(len(p.edges))] + [float(x) for x in p.edges] + [float(x) for x in p.directions] + [float(x) for x in p.vertices] + [float(x) for x in p.center]\n    return np.array(out)\n_pts = np.random.default_rng(123).uniform(size=(14, 2))\n", ["_canon(qc.de_brujin_grid(6, 5))", "_canon(qc.de_brujin_grid(5, 7, 0.3))"], label="de Bruijn call")
     outs = core.Driver().run_parallel(reqs)
     for name, o in zip(meta, outs):
         if "err" in o:
